@@ -62,6 +62,9 @@ def run(ctx, env):
     lay = Layouts(prog, an)
     ctx.rule("R8.1", "exporter byte layout = [version] ++ parser header layout ++ Star(parser record layout): same source field, same width, same order; header atoms outside, record atoms inside one loop over self.flowsets; nothing else emitted")
     ctx.rule("R8.2", "each (decode primitive, encode primitive) pair is in the inverse-pair table")
+    ctx.rule("R8.4", "the two version bytes an exporter writes (the constant 5 / 7 the decoder injects) are the two bytes the packet began with: the dispatch value is the whole 16-bit big-endian word, not a mapped or narrowed one (shared with C12 R12.5)")
+    from . import c12 as _c12
+    _c12.version_word_rule(ctx, prog, an, "R8.4")
     ctx.rule("R8.3", "what parse_bytes reports is what the parser read: the V5/V7 wrappers do not modify the decoded packet, and the records are read by nom count(record, header.count) — exactly header.count records or an error — so the emitted count always equals the number of emitted records")
     from . import c02 as _c02
     for ver, S in sorted(STRUCTS.items()):
